@@ -101,8 +101,10 @@ class C12(Prop):
         return cases
 
     def _rcase(self, case, **over):
+        # every fourth case is read through a filter that accepts everything (the filter wrapper then sees every block)
+        flt = {"invert": True, "pairs": []} if (len(case["rows"]) + len(str(case.get("fault")))) % 4 == 0 else None
         rc = {"rows": case["rows"], "form": case["cfg"]["form"], "raising": case["cfg"]["raising"], "fixer": "strict",
-              "filter": None, "tuples": case.get("tuples", False)}
+              "filter": flt, "tuples": case.get("tuples", False)}
         rc.update(over)
         return rc
 
@@ -182,6 +184,80 @@ class C12(Prop):
         for i, r in enumerate(rows):
             if len(r) > 1:
                 yield {**case, "rows": rows[:i] + [r[:-1]] + rows[i + 1 :]}
+
+
+    def py_sweeps(self, tier):
+        """The same clauses through read_excel: a damaged table anywhere in a two-sheet workbook."""
+        import os
+        import tempfile
+        import warnings
+
+        import openpyxl
+        from pdtable import read_excel
+        from pdtable.table_origin import InputError
+
+        fails, n = [], 0
+        good = lambda k: [[f"**t{k}"], ["all"], ["c", "d"], ["-", "text"], [k, "x"], []]
+        damages = {"number-as-unit": lambda k: [[f"**t{k}"], ["all"], ["c", "d"], [5, "text"], [k, "x"], []],
+                   "no-units": lambda k: [[f"**t{k}"], ["all"], ["c", "d"], []],
+                   "illegal-number": lambda k: [[f"**t{k}"], ["all"], ["c", "d"], ["-", "text"], ["oops", "x"], []]}
+        layout = [("first", [1, 2]), ("second", [3, 4, 5])]
+        d = tempfile.mkdtemp(prefix="pdv_c12x_")
+        try:
+            for dname, dmg in damages.items():
+                for bad in (1, 2, 3, 4, 5):
+                    wb = openpyxl.Workbook()
+                    wb.remove(wb.active)
+                    where = {}
+                    for sname, ks in layout:
+                        ws = wb.create_sheet(sname)
+                        row = 0
+                        for k in ks:
+                            where[k] = (sname, row)
+                            for r in (dmg(k) if k == bad else good(k)):
+                                ws.append(r)
+                                row += 1
+                    path = os.path.join(d, f"{dname}_{bad}.xlsx")
+                    wb.save(path)
+                    wb.close()
+                    n += 1
+                    with warnings.catch_warnings():
+                        warnings.simplefilter("ignore")
+                        # default tracker: the tables before the damaged one arrive, then a located InputError
+                        got, err = [], None
+                        try:
+                            for bt, b in read_excel(path):
+                                if bt.name == "TABLE":
+                                    got.append(b.name)
+                        except InputError as e:
+                            err = e
+                        except Exception as e:
+                            fails.append(f"xlsx {dname}@t{bad}: {type(e).__name__} escaped read_excel")
+                            continue
+                        want = [f"t{k}" for k in (1, 2, 3, 4, 5) if k < bad]
+                        if err is None:
+                            fails.append(f"xlsx {dname}@t{bad}: no InputError")
+                        elif got != want:
+                            fails.append(f"xlsx {dname}@t{bad}: tables {got} delivered before the error, expected {want}")
+                        else:
+                            loc = getattr(err.args[0], "load_location", None)
+                            sheet = getattr(getattr(loc, "sheet", None), "sheet_name", None) or getattr(loc, "sheet_name", None)
+                            if getattr(loc, "row", None) != where[bad][1] or sheet != where[bad][0]:
+                                fails.append(f"xlsx {dname}@t{bad}: error located at sheet {sheet!r} row {getattr(loc, 'row', None)}, "
+                                             f"the table starts at sheet {where[bad][0]!r} row {where[bad][1]}")
+                        # collecting tracker: every other table arrives, one issue
+                        tr = R.make_tracker(False)
+                        try:
+                            names = [b.name for bt, b in read_excel(path, issue_tracker=tr) if bt.name == "TABLE"]
+                            if names != [f"t{k}" for k in (1, 2, 3, 4, 5) if k != bad] or len(tr.issues) != 1:
+                                fails.append(f"xlsx {dname}@t{bad}: collecting read gave tables {names} and {len(tr.issues)} issue(s)")
+                        except Exception as e:
+                            fails.append(f"xlsx {dname}@t{bad}: collecting read raised {type(e).__name__}")
+        finally:
+            import shutil
+
+            shutil.rmtree(d, ignore_errors=True)
+        return fails, {"xlsx_damaged_workbooks": n}
 
 
 PROP = C12()
